@@ -27,7 +27,12 @@ pub mod model;
 const ALPHA: [u8; 12] = [b'a', b'b', b'c', b'.', b' ', b'-', 0x80, 0xff, 0xc3, b'\n', b'Z', b'.'];
 
 fn stem() -> impl Strategy<Value = BStr> {
-    prop::collection::vec(prop::sample::select(ALPHA.to_vec()), 1..=4).prop_map(BStr)
+    // names next to the two pseudo entries "." and "..": dot-prefixed, dots only, dot + space
+    let dotted: Vec<&'static [u8]> = vec![b"..a", b"...", b"..data", b".a", b".. ", b". ", b"..\xff", b"....", b".x.", b"a..", b"-.."];
+    prop_oneof![
+        9 => prop::collection::vec(prop::sample::select(ALPHA.to_vec()), 1..=4).prop_map(BStr),
+        1 => prop::sample::select(dotted).prop_map(|b| BStr(b.to_vec())),
+    ]
 }
 
 fn name_tree() -> impl Strategy<Value = NameSpec> {
